@@ -90,9 +90,9 @@ def heat(job, kind, mode, tier):
             fb = [dict(f) for f in realrun.proc_fallback(mode, program)]
             tag = "C03/%s/%s/%s/%s/c%s/ip%d/N%d" % (proc.SHORT[kind], mode, basis, program or "noprog", n_curves or 0, int(bool(init_perm)), N)
             with Patches() as pt:
-                ps.install(pt)
+                ps.install(pt, name_state=True)
                 got = 0
-                for leaf in job.explore(ps.run, dom):
+                for leaf in job.explore(ps.run, dom, timeout_ms=100):
                     if leaf.kind != "returned":
                         continue
                     m = leaf.value
@@ -107,7 +107,7 @@ def heat(job, kind, mode, tier):
                         Tk = lift(m.feed_temperature[k])
                         q = J1.t * A * dt * _hv(1, Tk, ps.M1) + J2.t * A * dt * _hv(2, Tk, ps.M2)
                         job.prove(tag + "/evaporation_heat/k%d" % k, cs, lift(m.feed_evaporation_heat[k]) != q, R_, inputs, fallback=fb,
-                                  congruence=["HVAP1", "HVAP2"])
+                                  congruence=["HVAP1", "HVAP2"], near=2)
                         none = m.permeate_condensation_heat[k] is None
                         job.record(tag + "/condensation_reported/k%d" % k, "discharged" if none == (ps.Tp is None) else "violated",
                                    "condensation heat %s, permeate temperature %s" % ("None" if none else "value", "None" if ps.Tp is None else "given"),
@@ -120,10 +120,10 @@ def heat(job, kind, mode, tier):
                                 pk, mk = lift(m.feed_compositions[k].p), lift(m.feed_mass[k])
                                 cp = pk * UF("CP1", Tk) / lift(ps.M1) + (1 - pk) * UF("CP2", Tk) / lift(ps.M2)
                                 job.prove(tag + "/self_cooling/k%d" % k, cs, Tn != Tk - lift(m.feed_evaporation_heat[k]) / (mk * cp),
-                                          R_, inputs, fallback=fb, congruence=["CP1", "CP2"])
+                                          R_, inputs, fallback=fb, congruence=["CP1", "CP2"], near=2)
                             else:
                                 job.prove(tag + "/programme/k%d" % k, cs, Tn != ps.program_at((k + 1) * dt), R_, inputs, fallback=fb,
-                                          congruence=["EXP", "LOG"])
+                                          congruence=["EXP", "LOG"], near=2)
                     job.twin_sat(tag + "/twin", cs)
                 if not got:
                     job.vacuity["failed"].append(tag + ": no returning path")
@@ -163,7 +163,7 @@ def twin(job, family, mode, tier):
                     return ma, mb
 
                 got = 0
-                for leaf in job.explore(run, dom):
+                for leaf in job.explore(run, dom, timeout_ms=100):
                     if leaf.kind != "returned":
                         continue
                     got += 1
